@@ -10,7 +10,7 @@ import (
 
 func init() {
 	registerProperty(&Property{
-		ID: "C17",
+		ID:          "C17",
 		Explanation: "Decides structural necessary conditions of the reader contract, for every type in the module that implements sliceio.Reader and every library loop that drains one: (R1) the error of every upstream Read is reported on every path (error-value flow; end-of-stream is the only accepted non-error); (R2) a frame whose rows were kept by the local executor is not handed to the next Read; (R3) the scanner validates arity and types on every call before it reads or assigns, and reports end-of-stream as a nil Err; (R4) multi-readers move on after an exhausted reader and tolerate empty reads; (R5) the end-of-stream sentinel is produced only at the sanctioned exhaustion sites, each under its recorded condition; (R6) the row count returned by an upstream Read is used on every non-error path, in particular when it arrives together with end-of-stream. Not decided: that the delivered sequence is independent of destination sizes and upstream chunking (value-level, the core of the statement), nor that earlier rows are never altered.",
 		Rules: []Rule{
 			{ID: "C17-R1", Doc: "upstream read errors propagate", Run: c17r1},
